@@ -32,11 +32,16 @@ pub const DEF: PropDef = PropDef {
     run,
 };
 
-pub const SUBS: &[SubDef] = &[SubDef { prop: "C06", name: "locality", oracle: locality }, SubDef { prop: "C06", name: "defrag", oracle: defrag }];
+pub const SUBS: &[SubDef] = &[
+    SubDef { prop: "C06", name: "locality", oracle: locality },
+    SubDef { prop: "C06", name: "defrag", oracle: defrag },
+    SubDef { prop: "C06", name: "locality_raw", oracle: locality_raw },
+];
 
 fn run(ctx: &Ctx) {
     ctx.run_tape("locality", locality, ctx.pick(16_000, 800_000), 700);
     ctx.run_tape("defrag", defrag, ctx.pick(4_000, 200_000), 1200);
+    ctx.run_tape("locality_raw", locality_raw, ctx.pick(10_000, 400_000), 96);
 }
 
 pub struct OkInfo {
@@ -355,6 +360,27 @@ fn locality(t: &mut Tape, obs: &mut Obs) -> R {
         4 => vec![0xff; 1 + t.below(40)],
         _ => vec![0x00; 1 + t.below(40)],
     };
+    check_pair(fam, &b, &x, ["valid", "corrupt-len", "truncated", "random"][form], obs)
+}
+
+/// the tape is raw: [family selector, split selector, bytes...]; b = first part of the bytes, x = the rest
+fn locality_raw(t: &mut Tape, obs: &mut Obs) -> R {
+    let fams = families();
+    let fam = &fams[t.u8() as usize % fams.len()];
+    let sel = t.u8() as usize;
+    let mut rest = Vec::new();
+    while !t.exhausted() {
+        rest.push(t.u8());
+    }
+    let k = if rest.is_empty() { 0 } else { (sel * (rest.len() + 1)) >> 8 };
+    let (b, x) = rest.split_at(k.min(rest.len()));
+    check_pair(fam, b, x, "raw", obs)
+}
+
+/// the locality / provenance relation for every parser of one family on (b, b ++ x)
+fn check_pair(fam: &Family, b: &[u8], x: &[u8], form: &str, obs: &mut Obs) -> R {
+    let b = b.to_vec();
+    let x = x.to_vec();
     let mut bx = b.clone();
     bx.extend_from_slice(&x);
     let declared = (fam.declared)(&b);
@@ -383,7 +409,7 @@ fn locality(t: &mut Tape, obs: &mut Obs) -> R {
                 if !x.is_empty() && a.slices.iter().any(|s| s.1 > 0) {
                     obs.nontrivial(fnv64(&b) ^ fnv64(pn.as_bytes()));
                 }
-                obs.sample_class(&format!("{}:{}:ok", fam.name, ["valid", "corrupt-len", "truncated", "random"][form]), || json!({"parser": pn, "b": hex_short(&b), "suffix_bytes": x.len(), "slices": a.slices.iter().filter(|s| s.1 > 0).count()}));
+                obs.sample_class(&format!("{}:{}:ok", fam.name, form), || json!({"parser": pn, "b": hex_short(&b), "suffix_bytes": x.len(), "slices": a.slices.iter().filter(|s| s.1 > 0).count()}));
             }
             (Run::Err(e1), Run::Ok(c)) => {
                 // (2) only allowed when b did not contain the declared length
